@@ -202,6 +202,8 @@ def run(res):
         else:
             w = check_gcds(c, rec["comp"])
             if w: gbad.append((rec, w))
+    from props.policy_corr import run_policy_corr
+    run_policy_corr(res, rng, thorough)
     res.sample({"case": pl.short(s_cases[0]) if s_cases else None})
     res.sample({"case": pl.short(p_cases[0]) if p_cases else None})
     res.oblige("O:(1) with GCDs on, the divisor of every multi-valued range is exactly the gcd of its members' distances from the lower bound", "O", not gbad,
